@@ -12,7 +12,12 @@ Models: Emboss/Model/Names.lean, StaticAsserts.lean, CppInt.lean (+ Enum.lean fo
 -/
 import Emboss.Lemmas.StaticAsserts
 import Emboss.Lemmas.EnumGen
+import Emboss.Lemmas.Names
+import Emboss.Lemmas.NamesScan
 import Emboss.Model.Names
+import Emboss.Model.EnableIfs
+import Emboss.Generated.CppReserved
+import Emboss.Spec.CppKeywords
 namespace Emboss.C07
 open Emboss.CppInt Emboss.StaticAsserts Emboss.Names
 
@@ -131,82 +136,158 @@ theorem C07_choice_counterexample :
 
 example : choiceTypes (min 0 0, max 255 65535) (0, 255) (0, 65535) = (some i32, some i32) := by decide
 
+/-! ## arithmetic and comparison operations -/
+
+/-- **`IntermediateT` exists and is wide enough.**  For an operation node the front end
+accepted — every integer clause (the result, when it is an integer, and each integer operand)
+fits `int64_t` or `uint64_t`, and not one of them needing the signed and another the unsigned
+type — the back end's `_cpp_integer_type_for_range(min(…), max(…))` is a type (never the
+Python `None`, which would be written into the header as the text `None`), and it holds every
+value of every clause, so no operand is truncated by the conversion to `IntermediateT`.
+Covers `+ - *`, the comparisons (which have no integer result clause), `?:`, `$max`. -/
+theorem C07_operation_intermediate_type (c : Int × Int) (cs : List (Int × Int))
+    (hacc : frontAcceptsOp (c :: cs) = true) :
+    ∃ ty, opIntermediate (c :: cs) = some ty ∧
+      ∀ d ∈ c :: cs, ∀ v, d.1 ≤ v → v ≤ d.2 → ty.holds v = true := by
+  obtain ⟨⟨b1, b2⟩, b3, b4, b5⟩ := hullOf_bounds cs c
+  have hexists : ∃ ty, typeForRange (hullOf c cs).1 (hullOf c cs).2 = some ty := by
+    rcases frontAcceptsOp_uniform _ hacc with hi | hu
+    · have h1 : -9223372036854775808 ≤ (hullOf c cs).1 := by
+        apply b4
+        · have := hi c (List.mem_cons_self ..)
+          simp only [fitsI64, Bool.and_eq_true, decide_eq_true_eq] at this; exact this.1
+        · intro d hd
+          have := hi d (List.mem_cons_of_mem _ hd)
+          simp only [fitsI64, Bool.and_eq_true, decide_eq_true_eq] at this; exact this.1
+      have h2 : (hullOf c cs).2 ≤ 9223372036854775807 := by
+        apply b5
+        · have := hi c (List.mem_cons_self ..)
+          simp only [fitsI64, Bool.and_eq_true, decide_eq_true_eq] at this; exact this.2
+        · intro d hd
+          have := hi d (List.mem_cons_of_mem _ hd)
+          simp only [fitsI64, Bool.and_eq_true, decide_eq_true_eq] at this; exact this.2
+      unfold typeForRange
+      split
+      · exact ⟨_, rfl⟩
+      · split
+        · exact ⟨_, rfl⟩
+        · rw [if_pos ⟨by omega, by omega⟩]; exact ⟨_, rfl⟩
+    · have h1 : 0 ≤ (hullOf c cs).1 := by
+        apply b4
+        · have := hu c (List.mem_cons_self ..)
+          simp only [fitsU64, Bool.and_eq_true, decide_eq_true_eq] at this; exact this.1
+        · intro d hd
+          have := hu d (List.mem_cons_of_mem _ hd)
+          simp only [fitsU64, Bool.and_eq_true, decide_eq_true_eq] at this; exact this.1
+      have h2 : (hullOf c cs).2 ≤ 18446744073709551615 := by
+        apply b5
+        · have := hu c (List.mem_cons_self ..)
+          simp only [fitsU64, Bool.and_eq_true, decide_eq_true_eq] at this; exact this.2
+        · intro d hd
+          have := hu d (List.mem_cons_of_mem _ hd)
+          simp only [fitsU64, Bool.and_eq_true, decide_eq_true_eq] at this; exact this.2
+      unfold typeForRange
+      split
+      · exact ⟨_, rfl⟩
+      · split
+        · exact ⟨_, rfl⟩
+        · split
+          · exact ⟨_, rfl⟩
+          · rw [if_pos ⟨by omega, by omega⟩]; exact ⟨_, rfl⟩
+  obtain ⟨ty, hty⟩ := hexists
+  refine ⟨ty, hty, ?_⟩
+  intro d hd v hv1 hv2
+  apply typeForRange_holds _ _ ty hty v
+  rcases List.mem_cons.mp hd with rfl | hd'
+  · omega
+  · have := b3 d hd'; omega
+
+/-- Non-vacuity: `big < 5` with `big : UInt:64`, and `a - b` on two `Int:32`s. -/
+example : frontAcceptsOp [(0, 18446744073709551615), (5, 5)] = true ∧
+    opIntermediate [(0, 18446744073709551615), (5, 5)] = some u64 ∧
+    frontAcceptsOp [(-4294967295, 4294967295), (-2147483648, 2147483647), (-2147483648, 2147483647)] = true ∧
+    opIntermediate [(-4294967295, 4294967295), (-2147483648, 2147483647), (-2147483648, 2147483647)] = some i64 := by
+  decide
+
+/-- Why the front end's mixed-signedness check is needed (and must see *comparisons* too,
+whose result is not an integer): `big == small` with `big : UInt:64`, `small : Int:8` — each
+operand fits a 64-bit type, the node is rejected, and without the rejection there is no
+intermediate type (the header would contain `Equal</**/None, …>`). -/
+theorem C07_mixed_signedness_counterexample :
+    [(0, 18446744073709551615), ((-128 : Int), (127 : Int))].all (fun c => fitsU64 c || fitsI64 c) = true ∧
+    frontAcceptsOp [(0, 18446744073709551615), (-128, 127)] = false ∧
+    opIntermediate [(0, 18446744073709551615), (-128, 127)] = none := by decide
+
 /-! ## names -/
 
 /-
 Full statement (false on the real code): within one C++ scope, distinct Emboss entities get
 distinct identifiers.
 
-Proved fragment (`EmbossReserved…` helper types of one structure): under the hypothesis
-that the field names stay pairwise distinct after `snake_to_camel`.  The other clash classes
-(field vs. `backing_` / `<param>_` / `has_<field>`, nested enum vs. view method, type vs.
-`<Struct>View`…) are decided by the executable `Names.clashes`, tied to g++ by the
-correspondence; their witnesses are in `C07_names_counterexample`. -/
-theorem C07_names_distinct_partial (fs : List Field)
-    (hsnake : ∀ f ∈ fs, ∀ c cs, f.name = c :: cs → c ≠ '$')
+Proved for the `EmbossReserved…` helper types of one structure (below): since `fix: dca9b37`
+the back end rejects a structure two of whose fields would get the same helper class name, so
+the former hypothesis "names stay distinct after `snake_to_camel`" is a consequence of
+acceptance.  The other clash classes (field vs. `backing_` / `<param>_` / `has_<field>`, nested
+enum vs. view method, type vs. `<Struct>View`…) are still open findings; they are decided by
+the executable `Names.clashes`, tied to g++ by the correspondence, and characterised by
+`C07_clash_scopes`; their witnesses are in `C07_names_counterexample`. -/
+/-- **Accepted ⇒ the helper types of a structure have pairwise distinct names**: the nested
+view classes of the non-alias virtual fields (`EmbossReservedVirtual<Camel>View`,
+`EmbossReservedDollarVirtual<Name>View` for `$size_in_bytes` & co.) and the validators of the
+fields with `[requires]` (`EmbossReservedValidatorFor<Camel>`).  Hypotheses: the back end's
+check passed (`fieldNamesDistinct`, mirror of `_verify_generated_field_names_are_distinct`),
+field names are distinct (front end), `$`-fields are virtual. -/
+theorem C07_names_distinct (fs : List Field)
+    (hnames : (fs.map (·.name)).Nodup)
+    (hdv : ∀ f ∈ fs, isDollar f.name = true → f.validator = false)
+    (hacc : fieldNamesDistinct fs = true) :
+    (reservedNames fs).Nodup :=
+  reservedNames_nodup fs hnames hdv hacc
+
+/-- **The check rejects nothing but genuine collisions**: fields whose names stay pairwise
+distinct after `snake_to_camel` pass it. -/
+theorem C07_rejects_only_camel_collisions (fs : List Field)
     (hcamel : fs.Pairwise (fun a b => Emboss.Enum.snakeToCamel a.name ≠ Emboss.Enum.snakeToCamel b.name)) :
-    (reservedNames fs).Nodup := by
-  have hv : ∀ f ∈ fs, virtualViewName f.name =
-      some (s "EmbossReservedVirtual" ++ Emboss.Enum.snakeToCamel f.name ++ s "View") := by
-    intro f hf
-    unfold virtualViewName
-    split
-    · rename_i c cs heq
-      exact absurd rfl (hsnake f hf _ _ heq)
-    · rfl
-  unfold reservedNames List.Nodup
-  rw [List.pairwise_append]
-  refine ⟨?_, ?_, ?_⟩
-  · -- virtual view classes among themselves
-    rw [List.pairwise_filterMap]
-    refine (List.Pairwise.and_mem.mp hcamel).imp ?_
-    rintro a b ⟨ha, hb, hab⟩ x hx y hy
-    by_cases hoa : a.ownView = true
-    · by_cases hob : b.ownView = true
-      · simp only [hoa, hob, if_true] at hx hy
-        rw [hv a ha] at hx
-        rw [hv b hb] at hy
-        cases hx; cases hy
-        intro h
-        have h1 := List.append_cancel_right h
-        exact hab (List.append_cancel_left h1)
-      · simp [hob] at hy
-    · simp [hoa] at hx
-  · -- validators among themselves
+    fieldNamesDistinct fs = true := by
+  simp only [fieldNamesDistinct, Bool.and_eq_true, Emboss.Enum.distinctLoop_iff, List.not_mem_nil,
+    not_false_eq_true, implies_true, and_true]
+  constructor
+  · unfold checkedVirtualNames List.Nodup
     rw [List.pairwise_map]
-    have hp : fs.Pairwise (fun a b => validatorName a.name ≠ validatorName b.name) := by
-      refine hcamel.imp ?_
-      intro a b hab h
-      exact hab (List.append_cancel_left h)
-    exact hp.sublist List.filter_sublist
-  · -- a view-class name is never a validator name
-    intro x hx y hy h
-    obtain ⟨f, hf, hfx⟩ := List.mem_filterMap.mp hx
-    obtain ⟨g, hg, rfl⟩ := List.mem_map.mp hy
-    by_cases hof : f.ownView = true
-    · simp only [hof, if_true] at hfx
-      rw [hv f hf] at hfx
-      cases hfx
-      simp [s, validatorName] at h
-    · simp [hof] at hfx
+    refine List.Pairwise.sublist List.filter_sublist (hcamel.imp ?_)
+    intro a b hab h
+    exact hab (List.append_cancel_left (List.append_cancel_right h))
+  · unfold checkedValidatorNames List.Nodup
+    rw [List.pairwise_map]
+    refine List.Pairwise.sublist List.filter_sublist (hcamel.imp ?_)
+    intro a b hab h
+    exact hab (List.append_cancel_left h)
 
 def fPlain (n : String) : Field := { name := s n }
 def fVirt (n : String) : Field := { name := s n, ownView := true }
 def fReq (n : String) : Field := { name := s n, validator := true }
 def fConst (n : String) : Field := { name := s n, ownView := true, constant := true }
 
-/-- Counterexamples to the full statement, one per clash class (all replayed on the real
-compiler + g++ by `./check C07`):
-1. `let x_1 = …` and `let x1 = …` → two nested classes `EmbossReservedVirtualX1View` (F15);
-2. `[requires]` on `x_1` and `x1` → two `EmbossReservedValidatorForX1`;
+/-- The former counterexamples 1–2 (findings `virtual-field-names-equal-after-camel-conversion`
+(F15), `validator-names-equal-after-camel-conversion`; fixed by dca9b37): the scopes would
+clash, and the back end now rejects the structure.  Pinned in `corpus/C07/*_must_be_rejected.emb`. -/
+theorem C07_camel_collisions_rejected :
+    clean (classScope { name := s "Foo", fields := [fPlain "y", fVirt "x_1", fVirt "x1"] }) = false ∧
+    fieldNamesDistinct [fPlain "y", fVirt "x_1", fVirt "x1"] = false ∧
+    clean (namespaceScope { owner := some { name := s "Foo", fields := [fReq "x_1", fReq "x1"] } }) = false ∧
+    fieldNamesDistinct [fReq "x_1", fReq "x1"] = false ∧
+    -- not flagged: a `[requires]` field next to a virtual field and an alias with the same CamelCase form
+    fieldNamesDistinct [fReq "x_1", fVirt "x1", fPlain "x__1"] = true := by
+  decide
+
+/-- Counterexamples to the full statement, one per clash class still open (all replayed on
+the real compiler + g++ by `./check C07`):
 3. field `backing_`; 4. parameter `x` and field `x_`; 5. fields `x` and `has_x`;
 6. nested enum `Ok`; 7. struct `Bar` and enum `BarView`; 8. enum `EnumTraits`;
 9. constant-size struct with nested enum `MaxSizeInBytes`;
 10. a structure named `Storage` (or `ValueType`): the unqualified `Storage::MaxSizeInBytes()` in
 the constant's `Read()` finds the template parameter instead of the namespace. -/
 theorem C07_names_counterexample :
-    clean (classScope { name := s "Foo", fields := [fPlain "y", fVirt "x_1", fVirt "x1"] }) = false ∧
-    clean (namespaceScope { owner := some { name := s "Foo", fields := [fReq "x_1", fReq "x1"] } }) = false ∧
     clean (classScope { name := s "Foo", fields := [fPlain "backing_"] }) = false ∧
     clean (classScope { name := s "Foo", params := [s "x"], fields := [fPlain "x_"] }) = false ∧
     clean (classScope { name := s "Foo", fields := [fPlain "x", fPlain "has_x"] }) = false ∧
@@ -217,12 +298,267 @@ theorem C07_names_counterexample :
     clean (referenceScope { name := s "Storage", fields := [fConst "$max_size_in_bytes"] }) = false := by
   decide
 
+/-- **The clash scopes, proved** (not only evaluated on witnesses): `clean` decides exactly the
+declarative well-formedness of a scope — any two declarations of the same identifier belong to
+one overload / redeclaration group — and each open clash class of the view class makes *every*
+structure of that shape ill-formed:
+* a field named like a member every view class has (`backing_`, `Ok`-style names cannot occur:
+  fields are snake_case — but `backing_` and, with parameters, `parameters_initialized_` can);
+* a field `<p>_` next to a parameter `<p>` (the parameter's data member);
+* fields `x` and `has_x`;
+* a nested enum named like a member of the view class (`Ok`, `Storage`, `IsComplete`, …). -/
+theorem C07_clash_scopes :
+    (∀ ds, clean ds = true ↔
+      ds.Pairwise (fun a b => a.ident = b.ident → ∃ g, a.group = some g ∧ b.group = some g)) ∧
+    (∀ st f, f ∈ st.fields → isDollar f.name = false → f.name ∈ fixedMembers st →
+      clean (classScope st) = false) ∧
+    (∀ st p f, p ∈ st.params → f ∈ st.fields → isDollar f.name = false → f.name = p ++ s "_" →
+      clean (classScope st) = false) ∧
+    (∀ st f g, f ∈ st.fields → g ∈ st.fields → isDollar f.name = false → isDollar g.name = false →
+      g.name = s "has_" ++ f.name → clean (classScope st) = false) ∧
+    (∀ st e, e ∈ st.nestedEnums → e ∈ fixedMembers st → clean (classScope st) = false) := by
+  refine ⟨?_, ?_, ?_, ?_, ?_⟩
+  · intro ds
+    rw [clean_iff]
+    suffices key : ∀ a b : Decl, compatible a b = true ↔
+        (a.ident = b.ident → ∃ g, a.group = some g ∧ b.group = some g) from
+      ⟨fun h => h.imp (fun {a b} hab => (key a b).mp hab), fun h => h.imp (fun {a b} hab => (key a b).mpr hab)⟩
+    intro a b
+    unfold compatible
+    cases ha : a.group <;> cases hb : b.group <;>
+      simp only [Bool.or_false, Bool.or_eq_true, bne_iff_ne, ne_eq, beq_iff_eq]
+    · constructor
+      · intro h e; exact absurd e h
+      · intro h e; obtain ⟨g, hg, _⟩ := h e; cases hg
+    · constructor
+      · intro h e; exact absurd e h
+      · intro h e; obtain ⟨g, hg, _⟩ := h e; cases hg
+    · constructor
+      · intro h e; exact absurd e h
+      · intro h e; obtain ⟨g, _, hg⟩ := h e; cases hg
+    · constructor
+      · rintro (h | h) e
+        · exact absurd e h
+        · exact ⟨_, rfl, by rw [h]⟩
+      · intro h
+        by_cases e : a.ident = b.ident
+        · obtain ⟨g, h1, h2⟩ := h e
+          cases h1; cases h2; exact Or.inr rfl
+        · exact Or.inl e
+  · intro st f hf hd hm
+    rw [classScope_eq, List.append_assoc, List.append_assoc]
+    refine not_clean_of_split _ _ { ident := f.name, what := "fixed member" }
+      { ident := f.name, what := "field accessor" } ?_ ?_ (incompatible_of_ident _ _ rfl rfl)
+    · exact List.mem_map.mpr ⟨f.name, hm, rfl⟩
+    · exact List.mem_append_right _ (List.mem_append_left _ (accessor_mem st f hf hd).1)
+  · intro st p f hp hf hd hn
+    rw [classScope_eq, List.append_assoc]
+    refine not_clean_of_split _ _ { ident := p ++ s "_", what := "parameter member" }
+      { ident := f.name, what := "field accessor" } ?_ ?_ (incompatible_of_ident _ _ hn.symm rfl)
+    · refine List.mem_append_right _ (List.mem_flatMap.mpr ⟨p, hp, ?_⟩)
+      simp
+    · exact List.mem_append_left _ (accessor_mem st f hf hd).1
+  · intro st f g hf hg hdf hdg hn
+    refine not_clean_of_mem _ { ident := s "has_" ++ f.name, what := "field has_" }
+      { ident := g.name, what := "field accessor" } ?_ ?_ ?_ (incompatible_of_ident _ _ hn.symm rfl)
+    · rw [classScope_eq]
+      exact List.mem_append_left _ (List.mem_append_right _ (accessor_mem st f hf hdf).2)
+    · rw [classScope_eq]
+      exact List.mem_append_left _ (List.mem_append_right _ (accessor_mem st g hg hdg).1)
+    · intro h
+      have := congrArg Decl.what h
+      simp at this
+  · intro st e he hm
+    rw [classScope_eq, List.append_assoc, List.append_assoc]
+    refine not_clean_of_split _ _ { ident := e, what := "fixed member" }
+      { ident := e, what := "using <enum>" } ?_ ?_ (incompatible_of_ident _ _ rfl rfl)
+    · exact List.mem_map.mpr ⟨e, hm, rfl⟩
+    · exact List.mem_append_right _ (List.mem_append_right _ (List.mem_map.mpr ⟨e, he, rfl⟩))
+
+/-- Non-vacuity: each clause has an instance (they are the witnesses of
+`C07_names_counterexample`). -/
+example : s "backing_" ∈ fixedMembers { name := s "Foo" } ∧ s "Ok" ∈ fixedMembers { name := s "Foo" } ∧
+    isDollar (s "backing_") = false ∧ s "x_" = s "x" ++ s "_" ∧ s "has_x" = s "has_" ++ s "x" := by
+  decide
+
+/-- **The namespace-scope clash classes, for every scope of the shape** (open findings
+`type-named-like-generated-type-identifier`, `type-named-like-enum-helper`,
+`nested-type-named-like-size-constant`): an enum named `<S>View`, `<S>Writer`, `Generic<S>View`,
+`Make<S>View` or `MakeAligned<S>View` next to a structure `<S>`; an enum named like one of the four
+enum helpers (with traits); a type nested in a structure and named like the free function of one
+of the structure's constant virtual fields (`MaxSizeInBytes`, …). -/
+theorem C07_clash_scopes_namespace :
+    (∀ (sc : Scope) (n e : Name), n ∈ sc.structs → e ∈ sc.enums →
+      (e = n ++ s "View" ∨ e = n ++ s "Writer" ∨ e = s "Generic" ++ n ++ s "View" ∨
+       e = s "Make" ++ n ++ s "View" ∨ e = s "MakeAligned" ++ n ++ s "View") →
+      clean (namespaceScope sc) = false) ∧
+    (∀ (sc : Scope) (e : Name), sc.traits = true → e ∈ sc.enums →
+      (e = s "EnumTraits" ∨ e = s "TryToGetEnumFromName" ∨ e = s "TryToGetNameFromEnum" ∨ e = s "EnumIsKnown") →
+      clean (namespaceScope sc) = false) ∧
+    (∀ (sc : Scope) (st : Struct) (f : Field) (c e : Name), sc.owner = some st → f ∈ st.fields →
+      f.constant = true → cppFieldName f.name = some c → e ∈ sc.enums → e = c →
+      clean (namespaceScope sc) = false) := by
+  refine ⟨?_, ?_, ?_⟩
+  · intro sc n e hn he hcase
+    obtain ⟨i, hS⟩ := structDecl_mem sc n hn
+    have hE := enumDecl_mem sc e he { ident := e, what := "enum" } (by simp [enumDecls])
+    have key : ∀ d : Decl, d ∈ structDecls n i → d.ident = e → d.what ≠ "enum" →
+        clean (namespaceScope sc) = false := by
+      intro d hd hid hw
+      refine not_clean_of_mem _ d { ident := e, what := "enum" } (hS d hd) hE ?_
+        (incompatible_of_ident' _ _ hid rfl)
+      intro h; exact hw (by rw [h])
+    rcases hcase with rfl | rfl | rfl | rfl | rfl
+    · exact key { ident := n ++ s "View", what := "View alias" } (by simp [structDecls]) rfl (by simp)
+    · exact key { ident := n ++ s "Writer", what := "Writer alias" } (by simp [structDecls]) rfl (by simp)
+    · exact key { ident := s "Generic" ++ n ++ s "View", what := "view class template" } (by simp [structDecls]) rfl (by simp)
+    · exact key { ident := s "Make" ++ n ++ s "View", group := some (100 + i), what := "Make…View" } (by simp [structDecls]) rfl (by simp)
+    · exact key { ident := s "MakeAligned" ++ n ++ s "View", what := "MakeAligned…View" } (by simp [structDecls]) rfl (by simp)
+  · intro sc e ht he hcase
+    have hE := enumDecl_mem sc e he
+    rw [ht] at hE
+    have hEnum := hE { ident := e, what := "enum" } (by simp [enumDecls])
+    have key : ∀ d : Decl, d ∈ enumDecls e true → d.ident = e → d.what ≠ "enum" →
+        clean (namespaceScope sc) = false := by
+      intro d hd hid hw
+      refine not_clean_of_mem _ d { ident := e, what := "enum" } (hE d hd) hEnum ?_
+        (incompatible_of_ident' _ _ hid rfl)
+      intro h; exact hw (by rw [h])
+    rcases hcase with rfl | rfl | rfl | rfl
+    · exact key { ident := s "EnumTraits", group := some 1, what := "EnumTraits" } (by simp [enumDecls]) rfl (by simp)
+    · exact key { ident := s "TryToGetEnumFromName", group := some 2, what := "helper" } (by simp [enumDecls]) rfl (by simp)
+    · exact key { ident := s "TryToGetNameFromEnum", group := some 3, what := "helper" } (by simp [enumDecls]) rfl (by simp)
+    · exact key { ident := s "EnumIsKnown", group := some 4, what := "helper" } (by simp [enumDecls]) rfl (by simp)
+  · intro sc st f c e ho hf hc hcpp he hec
+    subst hec
+    have hEnum := enumDecl_mem sc e he { ident := e, what := "enum" } (by simp [enumDecls])
+    have hF : ({ ident := e, what := "constant function" } : Decl) ∈ namespaceScope sc := by
+      unfold namespaceScope
+      refine List.mem_append_right _ ?_
+      rw [ho]
+      refine List.mem_flatMap.mpr ⟨f, hf, ?_⟩
+      simp [hc, hcpp]
+    refine not_clean_of_mem _ _ _ hEnum hF ?_ (incompatible_of_ident _ _ rfl rfl)
+    intro h
+    have := congrArg Decl.what h
+    simp at this
+
+example : s "BarView" = s "Bar" ++ s "View" ∧ cppFieldName (s "$max_size_in_bytes") = some (s "MaxSizeInBytes") := by decide
+
 /-- Non-vacuity: an ordinary structure is clean, and meets the hypotheses of
 `C07_names_distinct_partial`. -/
 example :
     clean (classScope { name := s "Foo", params := [s "n"], fields := [fPlain "a", fVirt "b_1", fConst "$size_in_bytes"], nestedEnums := [s "Kind"] }) = true ∧
     clean (namespaceScope { structs := [s "Foo", s "Bar"], enums := [s "Kind", s "Other"] }) = true ∧
     [fPlain "a", fVirt "b_1"].Pairwise
-      (fun a b => Emboss.Enum.snakeToCamel a.name ≠ Emboss.Enum.snakeToCamel b.name) := by decide
+      (fun a b => Emboss.Enum.snakeToCamel a.name ≠ Emboss.Enum.snakeToCamel b.name) ∧
+    fieldNamesDistinct [fPlain "a", fVirt "b_1", fConst "$size_in_bytes", fReq "c"] = true ∧
+    ([fPlain "a", fVirt "b_1", fConst "$size_in_bytes", fReq "c"].map (·.name)).Nodup := by decide
+
+/-! ## `(cpp) namespace` -/
+
+/-- **An accepted `(cpp) namespace` value yields well-formed `namespace X {` lines**: the
+components the back end emits (`_get_namespace_components`, the same scanner that validates the
+text — whitespace around `::` and a leading `::` play no role) are at least one, each a C++
+identifier, none of them a reserved word. -/
+theorem C07_namespace_components (rw : List String) (text : List Char) (cs : List Name)
+    (h : verifyNamespace rw text = .ok cs) :
+    nsParse text = some cs ∧ cs ≠ [] ∧
+    (∀ c ∈ cs, IsIdent c) ∧ (∀ c ∈ cs, String.ofList c ∉ rw) := by
+  unfold verifyNamespace at h
+  cases hp : nsParse text with
+  | none =>
+    simp only [hp] at h
+    split at h
+    · cases h
+    · split at h <;> cases h
+  | some ds =>
+    simp only [hp] at h
+    split at h
+    · rename_i hf
+      cases h
+      obtain ⟨h1, h2⟩ := nsScan_sound text .lead [] cs hp (by simp) trivial
+      refine ⟨rfl, h1, h2, ?_⟩
+      intro c hc hm
+      have : c ∈ cs.filter (fun c => rw.contains (String.ofList c)) :=
+        List.mem_filter.mpr ⟨hc, by simp [hm]⟩
+      rw [hf] at this
+      cases this
+    · cases h
+
+/-- **Every text of the documented shape is accepted, with exactly its identifiers**
+(completeness; with `C07_namespace_components` the scanner is characterised): blanks `w0`, an
+optional `::` followed by blanks, an identifier, blanks, then any number of `:: blanks
+identifier blanks` — whatever the blanks (any `str.isspace()` character), provided no component is
+a reserved word. -/
+theorem C07_namespace_text_complete (rw : List String) (w0 : List Char) (lead : Option (List Char))
+    (n : Name) (w2 : List Char) (rest : List (List Char × Name × List Char))
+    (h0 : w0.all Emboss.Enum.isSpace = true) (hl : ∀ w1, lead = some w1 → w1.all Emboss.Enum.isSpace = true)
+    (hn : IsIdent n) (h2 : w2.all Emboss.Enum.isSpace = true)
+    (hr : ∀ p ∈ rest, p.1.all Emboss.Enum.isSpace = true ∧ IsIdent p.2.1 ∧ p.2.2.all Emboss.Enum.isSpace = true)
+    (hk : ∀ c ∈ n :: rest.map (·.2.1), String.ofList c ∉ rw) :
+    verifyNamespace rw (w0 ++ nsLead lead ++ n ++ w2 ++ nsTail rest) = .ok (n :: rest.map (·.2.1)) := by
+  unfold verifyNamespace
+  rw [nsParse_complete w0 lead n w2 rest h0 hl hn h2 hr]
+  have : (n :: rest.map (·.2.1)).filter (fun c => rw.contains (String.ofList c)) = [] := by
+    rw [List.filter_eq_nil_iff]
+    intro c hc
+    simpa using hk c hc
+  simp only [this]
+
+/-- Non-vacuity: `" :: a1 :: b::c_1\t"` is such a text. -/
+example : [' '] ++ nsLead (some [' ']) ++ s "a1" ++ [' '] ++ nsTail [([' '], s "b", []), ([], s "c_1", ['\t'])] =
+    " :: a1 :: b::c_1\t".toList := by decide
+
+/-- **Every C++17 keyword and alternative token is refused as a namespace component** — over the
+back end's own table, regenerated from `_CPP_RESERVED_WORDS` on every run. -/
+theorem C07_namespace_keywords_reserved :
+    Emboss.Spec.cpp17Keywords.all (fun k => Emboss.Generated.cppReservedWords.contains k) = true := by
+  decide +kernel
+
+/-- Non-vacuity and the boundary cases (tests by evaluation): whitespace and a leading `::` are
+tolerated; a keyword is refused however it is padded; `::` alone, an empty text, `a::`, `a b`
+and `a:::b` are not namespaces. -/
+example :
+    verifyNamespace ["protected", "new"] " ::a1 :: b_2\t::c ".toList = .ok [s "a1", s "b_2", s "c"] ∧
+    verifyNamespace ["protected", "new"] " new".toList = .reserved [s "new"] ∧
+    verifyNamespace ["protected", "new"] "::".toList = .global ∧
+    verifyNamespace ["protected", "new"] "  ".toList = .empty ∧
+    verifyNamespace ["protected", "new"] "a::".toList = .invalid ∧
+    verifyNamespace ["protected", "new"] "a b".toList = .invalid ∧
+    verifyNamespace ["protected", "new"] "a:::b".toList = .invalid ∧
+    verifyNamespace ["protected", "new"] "Protected".toList = .ok [s "Protected"] := by
+  decide +kernel
+
+/-- … and against the real table: the seeded-change witness. -/
+example : verifyNamespace Emboss.Generated.cppReservedWords "acme :: protected :: wire".toList =
+    .reserved [s "protected"] := by decide +kernel
+
+/-! ## `enable_if` preconditions -/
+
+/-- **Every `enable_if` of the runtime and of the code templates is accounted for** (table
+regenerated on every run): caller-argument overload rules, the constructor guard, and the
+ones over generated template arguments, each of which has its clause below. -/
+theorem C07_enable_ifs_classified :
+    Emboss.EnableIfs.allClassified = true ∧ Emboss.EnableIfs.allTagsProved = true := by
+  decide +kernel
+
+/-- **The generated `GenericArrayView` arguments enable exactly the members the templates use**:
+`kAddressableUnitSize` is 8 for an array in a `struct` and 1 in a `bits`, so exactly one of the
+two `SizeOfBuffer()` overloads (which `ElementCount()`/`Ok()` call unconditionally) exists, and
+it is `SizeInBytes()` for a `struct`, `SizeInBits()` for a `bits`; `ToString()` exists only for
+byte arrays of one-byte elements; any other unit would leave no overload at all. -/
+theorem C07_enable_if_array_members (isBits : Bool) (elementSize : Nat) :
+    Emboss.EnableIfs.sizeOverloads (Emboss.EnableIfs.arrayUnit isBits) = (!isBits, isBits) ∧
+    (Emboss.EnableIfs.hasToString (Emboss.EnableIfs.arrayUnit isBits) elementSize = true ↔
+      isBits = false ∧ elementSize = 1) ∧
+    (∀ u, u ≠ 1 → u ≠ 8 → Emboss.EnableIfs.sizeOverloads u = (false, false)) := by
+  refine ⟨by cases isBits <;> rfl, ?_, ?_⟩
+  · cases isBits <;> simp [Emboss.EnableIfs.hasToString, Emboss.EnableIfs.arrayUnit]
+  · intro u h1 h8
+    simp [Emboss.EnableIfs.sizeOverloads, h1, h8]
+
+example : Emboss.EnableIfs.sizeOverloads (Emboss.EnableIfs.arrayUnit true) = (false, true) ∧
+    Emboss.EnableIfs.hasToString (Emboss.EnableIfs.arrayUnit false) 1 = true := by decide
 
 end Emboss.C07
